@@ -665,3 +665,85 @@ def idx_branch_stop(repo, tier="quick"):
         else:
             obs.append(ob_undecided(oid, fi, verdict[1], construct=verdict[2], instance="branch-stop", reason="outside the forms the rule knows"))
     return obs
+
+
+# ---------------------------------------------------------------------------------------------------------------------
+# EXC.cast-spellings (C14): what is a number is decided by float() and by nothing in front of it
+# ---------------------------------------------------------------------------------------------------------------------
+
+_SPELLINGS = ["1", "+1", "-0.25", "0.5", ".5", "1.", "1e-1", "2.5E-1", "-5e-1", "1E3", "0", "-0"]
+
+
+def exc_cast_spellings(repo, tier="quick"):
+    """The reserved numeric keys accept every spelling float() accepts (+1, -0.25, 1e-1 are named by the property).  The cast
+    itself is Python's; what the package can get wrong is a test in front of it.  Everything that runs between the decision
+    to cast and the cast is executed abstractly on representative spellings: none of them may be rejected or changed."""
+    from ..absint import Evaluator, Unsupported, Raised
+    oid = "EXC.cast-spellings"
+    fi = repo.function("dialects:check_and_cast_types")
+    casts = []
+    for tr in ast.walk(fi.node):
+        if not isinstance(tr, ast.Try):
+            continue
+        for i, st in enumerate(tr.body):
+            for sub in ast.walk(st):
+                if isinstance(sub, ast.Call) and isinstance(sub.func, ast.Name) and len(sub.args) == 1 and isinstance(sub.args[0], ast.Name) and not sub.keywords \
+                        and isinstance(st, ast.Assign) and any(isinstance(t, ast.Subscript) for t in st.targets):
+                    casts.append((tr, i, st, sub))
+    need(casts, "anchor vanished: check_and_cast_types no longer casts `type(value)` inside a try block and stores the result", fi)
+    obs = []
+    for tr, i, st, call in casts:
+        tname, vname = call.func.id, call.args[0].id
+        pre = tr.body[:i]
+        # the statements in front of the try block in the same arm (`if not isinstance(value, expected_type): <here> try: ...`)
+        for parent in ast.walk(fi.node):
+            for field in ("body", "orelse"):
+                lst = getattr(parent, field, None)
+                if isinstance(lst, list) and tr in lst and isinstance(parent, ast.If):
+                    pre = lst[:lst.index(tr)] + pre
+        FLOAT = "<class float>"
+
+        def hook(ev, c, env):
+            if isinstance(c.func, ast.Name):
+                t = repo.resolve_name(fi.module, c.func.id)
+                if t is not None and t.kind == "repo" and c.func.id not in env:
+                    args = [ev.eval(a, env) for a in c.args]
+                    params = t.fi.positional_params
+                    sub_ev = Evaluator(call_hook=hook, load_hook=load)
+                    res = sub_ev.run_function(t.fi.node, dict(zip(params, args)))
+                    if res[0] == "raise":
+                        raise Raised(res[1])
+                    return True, res[1]
+            return False, None
+
+        def load(ev, e, env):
+            if isinstance(e, ast.Name) and e.id == "float" and "float" not in env:
+                return True, FLOAT
+            return False, None
+        bad = None
+        undecided = None
+        for text in _SPELLINGS:
+            fn = ast.FunctionDef(name="probe", args=ast.arguments(posonlyargs=[], args=[], kwonlyargs=[], kw_defaults=[], defaults=[]),
+                                 body=list(pre) + [ast.Return(value=ast.Name(id=vname, ctx=ast.Load()))], decorator_list=[])
+            ev = Evaluator(call_hook=hook, load_hook=load)
+            try:
+                res = ev.run_function(fn, {vname: text, tname: FLOAT, "expected_type": FLOAT})
+            except Unsupported as err:
+                undecided = str(err)
+                break
+            if res[0] == "raise":
+                bad = (text, "rejected with %s before float() is asked" % res[1])
+                break
+            if res[1] != text:
+                bad = (text, "changed to %r before the cast" % (res[1],))
+                break
+        if bad:
+            obs.append(ob_fail(oid, fi, pre[0] if pre else st, construct="numeric spelling %r is %s" % bad, instance="spellings",
+                               reason="a test in front of the cast is stricter than float(): a documented spelling of a charge or weight raises TypeError (positional and keyword form alike)"))
+        elif undecided:
+            obs.append(ob_undecided(oid, fi, pre[0] if pre else st, construct="statements in front of the cast", instance="spellings",
+                                    reason="outside the evaluator's language: %s" % undecided))
+        else:
+            obs.append(ob_ok(oid, fi, st, construct="%d spellings reach %s(%s) unchanged" % (len(_SPELLINGS), tname, vname), instance="spellings",
+                             reason="nothing in front of the cast rejects or rewrites a number"))
+    return obs
